@@ -1,4 +1,5 @@
 import AtreeModel.Map.Dump
+import AtreeModel.StorageOps
 import AtreeModel.Replay.Common
 /- Replays the map streams of the harness on the model. -/
 namespace Atree.Replay
@@ -12,6 +13,12 @@ structure MapState where
   aux : AList SlabID Elem := []
   pending : List String := []
   rep : Report := {}
+  -- persistence (C03): storage state machine over slab dumps, and the last committed world
+  store : St String String := St.init
+  snapMaps : AList Nat (Σ r, OMap r) := []
+  snapAux : AList SlabID Elem := []
+
+def mapDumpCodec : Codec String String := { enc := some, dec := fun _ b => some b, size := fun _ => 0 }
 
 namespace MapState
 
@@ -39,11 +46,26 @@ def effectLines {r : Nat} (aux : AList SlabID Elem) (m : OMap r) (c : Ctx) : Lis
       | some e => "SLB " ++ Dump.storableSlab id e
       | none => s!"SLB MISSING({id.render})")
 
+def applyEffects {r : Nat} (st : St String String) (aux : AList SlabID Elem) (m : OMap r) (effs : List Eff) : St String String :=
+  let slabs := Dump.mtree m m.d m.root
+  effs.foldl (fun st e =>
+    match e with
+    | .alloc _ _ => st
+    | .store id =>
+      let d := match AList.find? slabs id with
+        | some str => str
+        | none => match AList.find? aux id with
+          | some e => Dump.storableSlab id e
+          | none => s!"MISSING({id.render})"
+      match st.store id d with | .ok st' => st' | .error _ => st
+    | .remove id => match st.remove id with | .ok st' => st' | .error _ => st) st
+
 def commit {r : Nat} (s : MapState) (h : Nat) (m : OMap r) (c : Ctx) (obs : List String) : MapState :=
   let aux := c.created.foldl (fun a p => AList.insert a p.1 p.2) s.aux
   { s with alloc := AList.insert s.alloc m.addr c.ctr,
            maps := AList.insert s.maps h ⟨r, m⟩,
            aux := aux,
+           store := applyEffects s.store aux m c.eff,
            pending := obs ++ effectLines aux m c }
 
 def resolve (s : MapState) (e : Elem) : Elem :=
@@ -126,8 +148,21 @@ def stepLine (s : MapState) (line : String) (lineNo : Nat) : MapState :=
     applyOp { s with pending := [] } name (fields rest) lineNo
   | "DSP" :: rest =>
     match (fget (fields rest) "id").bind parseID with
-    | some id => { s with aux := AList.erase s.aux id }
+    | some id => { s with aux := AList.erase s.aux id,
+                          store := match s.store.remove id with | .ok st' => st' | .error _ => s.store }
     | none => s
+  | "COMMIT" :: _ =>
+    let r := s.store.fastCommit mapDumpCodec (fun _ => false)
+    let logParts := r.log.map (fun c => match c with
+      | .store id _ => "S:" ++ id.render
+      | .remove id => "R:" ++ id.render)
+    let ids := St.sortIDs (AList.keys r.st.base)
+    let regs := ids.filterMap (fun id => (AList.find? r.st.base id).map (fun d => "REG " ++ d))
+    { s with store := r.st, snapMaps := s.maps, snapAux := s.aux,
+             pending := [(match r.err with | none => "OBS ok" | some _ => "OBS err"),
+                         "LOG " ++ (if logParts.isEmpty then "-" else " ".intercalate logParts)] ++ regs ++ ["ENDREG"] }
+  | "CRASH" :: _ =>
+    { s with maps := s.snapMaps, aux := s.snapAux, store := St.fresh s.store.base s.store.alloc, pending := [] }
   | "FULL" :: hs :: rest =>
     let h := (fnat (fields [hs]) "h").getD 0
     match AList.find? s.maps h with
@@ -139,7 +174,7 @@ def stepLine (s : MapState) (line : String) (lineNo : Nat) : MapState :=
       if mine == theirs then s
       else s.note s!"line {lineNo}: FULL differs\n  model: {mine}\n  impl : {theirs}"
   | kind :: _ =>
-    if kind == "OBS" || kind == "EFF" || kind == "SLB" then
+    if kind == "OBS" || kind == "EFF" || kind == "SLB" || kind == "LOG" || kind == "REG" || kind == "ENDREG" then
       match s.pending with
       | [] => s.note s!"line {lineNo}: implementation has extra line: {line}"
       | p :: ps =>
